@@ -27,14 +27,19 @@ Oracle (independent of the model): no operation may fail; a reader must see ever
     readable and equal to the source of truth, check() clean, every listed pack's
     files present.
 
+Excluded input of the model, still run under the oracle: two processes writing byte-identical packs
+(two packers combining the same packs: same content hash = same pack name); counted as
+`excluded:same-pack-name-written-twice`.
+
 Mutants this was built against (scratch worktrees):
- A  _diff_pack_names: disk_nodes not merged (returns current_nodes: plain overwrite)   -> oracle: a concurrent commit is lost
- B  _save_pack_names: _packs_at_load not updated after the save                          -> T2 (+ oracle on later saves: double drop)
- C  reload_pack_names: _packs_at_load = disk_nodes (pending names counted as loaded)     -> oracle: the next save drops its own new pack
- D  _execute_pack_operations: _obsolete_packs before _save_pack_names                    -> oracle: reader / other packer finds a listed pack gone
- E  _restart_autopack/_restart_pack_operations: retry signal dropped (re-raise)          -> oracle: pack fails when another packer obsoleted its sources
- F  _syncronize_pack_names_from_disk_nodes: removed names kept in memory                 -> T2 (in-memory names differ)
- harmless: set comprehension rewrites in _diff_pack_names, renamed locals -> clean.
+ A  _diff_pack_names: disk_nodes = set(current_nodes) (plain overwrite, no merge)       -> oracle: a concurrent commit is lost (schedule [0,1,1,0,0,0,1,1] of fetch||fetch)
+ B  _save_pack_names: _packs_at_load not updated after the save                          -> T2 only (in-memory state; healed by the reload at the next lock)
+ C  reload_pack_names: _packs_at_load = disk_nodes (pending names counted as loaded)     -> oracle: the save after an autopack retry drops the process' own new pack
+ D  _execute_pack_operations: _obsolete_packs before _save_pack_names                    -> oracle: a concurrent fetch finds listed packs gone (NoSuchFile)
+ E  _restart_autopack/_restart_pack_operations: retry signal dropped (reload; raise)     -> oracle: autopack fails when another process obsoleted its sources
+ F  _syncronize_pack_names_from_disk_nodes: removed packs kept in memory                 -> T2 + oracle (autopack retry sees "nothing changed" and fails)
+ G  _clear_obsolete_packs: `preserve` ignored                                            -> T2 only (listing of obsolete_packs/; not observable by readers)
+ harmless: set comprehensions / set algebra in _diff_pack_names, renamed locals -> clean.
 """
 import os
 import shutil
@@ -715,7 +720,7 @@ def run(ctx, limit=None):
 
 
 def widen(ctx):
-    run(ctx, limit=400)
+    run(ctx, limit=100)
 
 
 def replay(ctx, case):
